@@ -1,7 +1,7 @@
 """C05 - parsers read every legal spelling of a graph; N-Triples / N-Quads output is valid.
 
 For a family of graphs / datasets, independent writers (mc/ref/writers.py) render each one in N-Triples,
-N-Quads, Turtle, TriG, RDF/XML and JSON-LD under every spelling vector with <= 1 (quick) / <= 2
+N-Quads, Turtle, TriG, RDF/XML and JSON-LD under every spelling vector with <= 2 (quick) / <= 3
 (thorough) deviations from the plain spelling (quoting styles, escape styles, prefixes, base + relative
 IRIs, abbreviations, shorthand, comments, whitespace, blank-node label shapes, XML and JSON-LD
 alternatives); rdflib must parse each document to the original graph, through every way of handing the
@@ -434,6 +434,8 @@ META = {
             "numeric/boolean shorthand, comments and whitespace, blank-node label shapes, RDF/XML and JSON-LD alternatives): rdflib must parse each to the original graph "
             "through each of nine ways of handing over the document. rdflib's N-Triples/N-Quads output is read by a strict grammar implementation validated on the "
             "W3C syntax tests; XML and JSON outputs are checked for well-formedness.",
-    "note": "Deviation bound 1 (quick) / 2 (thorough); ~70 graphs and ~55 datasets; the writers are trusted only as far as their plain spellings are cross-checked.",
+    "note": "Deviation bound 2 (quick) / 3 (thorough; 4 was run once, 2.4M documents, clean) over 10 N-Triples, 38 Turtle/TriG, 21 RDF/XML and 21 JSON-LD spelling "
+            "deviations; ~100 graphs and ~55 datasets; nine input modes for <=1 deviation, XML also as UTF-16 / Latin-1 / UTF-8+BOM bytes; the writers are trusted "
+            "only as far as their plain spellings are cross-checked.",
     "technique": "deviation-bounded exhaustive enumeration of document spellings from independent grammar-based writers, with an isomorphism oracle",
 }
